@@ -450,6 +450,10 @@ class Folder:
                 return getattr(base, e.attr)
             if isinstance(base, sp.Basic) and e.attr in ("real", "imag"):
                 return sp.re(base) if e.attr == "real" else sp.im(base)
+            if isinstance(base, (sp.MatrixBase,)) and e.attr in ("T", "H", "shape", "rows", "cols"):
+                return getattr(base, e.attr)
+            if isinstance(base, sp.Basic) and e.attr in ("is_zero", "is_real", "is_number"):
+                return getattr(base, e.attr)
             if getattr(base, "_sa_model", False) and hasattr(base, e.attr) and not callable(getattr(base, e.attr)):
                 return getattr(base, e.attr)          # data attribute of a checker-side model object
             raise Undecidable(f"attribute {txt}")
@@ -919,6 +923,8 @@ class Folder:
             if isinstance(args[0], (int, float)) and not isinstance(args[0], bool):
                 return hasattr(args[0], args[1])
             raise Undecidable(f"hasattr({args[0]!r}, {args[1]!r})")
+        if fn == "type" and len(args) == 1 and getattr(args[0], "_sa_type_text", None):
+            return Opaque(args[0]._sa_type_text)                  # a model of a library scalar/object declares what type() of it is
         if fn == "type" and len(args) == 1 and not isinstance(args[0], (Opaque, Rec, sp.Basic)):
             return Opaque("type:" + type(args[0]).__name__)
         if isinstance(e.func, ast.Attribute):
@@ -926,6 +932,11 @@ class Folder:
             m = e.func.attr
             if getattr(obj, "_sa_model", False) and hasattr(obj, m):
                 return getattr(obj, m)(*args, **kwargs)        # checker-side model object (e.g. a bit array)
+            if isinstance(obj, (sp.Basic, sp.MatrixBase)) and m in ("rewrite", "evalf", "simplify", "expand", "conjugate", "transpose", "adjoint", "subs", "doit", "applyfunc"):
+                try:
+                    return getattr(obj, m)(*args, **kwargs)    # sympy values are pure: their own algebra is part of the trusted base
+                except Exception as ex:
+                    raise Undecidable(f"sympy {m}: {ex}")
             if isinstance(obj, Rec) and m == "__getattribute__" and len(args) == 1 and args[0] in obj.fields:
                 return obj.fields[args[0]]
             if isinstance(obj, str) and m in ("split", "join", "startswith", "endswith", "replace", "rstrip", "lstrip", "count", "find", "isdigit", "format") and not kwargs:
